@@ -17,6 +17,10 @@ def gen(tier, rng, harness, driver):
         ts, gs = coregen.gen_core(rng)
         a = coregen.args(ts, gs)
         lines += ["core.print " + a, "!core.rt " + a]
+    from . import core2gen
+    for _ in range(n):
+        ts, gs = core2gen.gen_core2(rng)
+        lines += ["core2.print %s %s" % (ts, gs), "!core2.rt %s %s" % (ts, gs)]
     # call sites: the callee type spelled by call / invoke / callbr for generated signatures (variadic or not, with and without extra arguments)
     from . import tygen
     for _ in range(300 if tier == "quick" else 20000):
